@@ -473,28 +473,19 @@ Qed.
 Lemma wp_set_reserved b c0 ps s :
   H b c0 s ->
   (b = true -> ronly s = false ->
-   filter (fun p => negb (memN p ps)) (reserved s) = [] \/
-   (filter (fun p => negb (memN p (reserved s))) ps = [] /\
-    forall p, In p (filter (fun p => negb (memN p ps)) (reserved s)) -> at_capacity s p = false)) ->
+   forall s1, In (Ret None s1) (add_reserved_peers (filter (fun p => negb (memN p (reserved s))) ps) s) ->
+   forall q, In q (filter (fun p => negb (memN p ps)) (reserved s)) ->
+   memN q (reserved s1) = true -> at_capacity s1 q = false) ->
   wp (set_reserved_peer ps) (fun _ s' => op_post b c0 s s') s.
 Proof.
   intros HH CAP. unfold set_reserved_peer. apply wp_bind. apply wp_get.
   apply wp_bind. apply wp_choose. intros to_remove Hrem.
-  destruct (filter (fun p => negb (memN p (reserved s))) ps) as [|i0 ins] eqn:INS.
-  { (* nothing to reserve: the add phase is empty, the removal starts from s itself *)
-    unfold add_reserved_peers. cbn [for_each]. apply wp_bind. apply wp_bind. apply wp_ret. apply wp_ret. cbn [ctl_err].
-    eapply wp_conseq. apply (wp_remove_reserved b c0 to_remove s HH).
-    - intros Hb RO. destruct to_remove as [|p rest]; [exact I|]. intros _.
-      destruct (CAP Hb RO) as [E|(_ & AC)].
-      + rewrite E in Hrem. destruct Hrem as [X|[]]. discriminate X.
-      + apply AC. apply (perms_in _ _ Hrem). now left.
-    - intros e s2 P. exact P. }
-  eapply wp_seq. apply (wp_add_reserved b c0 _ s HH).
-  intros e s1 (H1 & F1). destruct e; [apply wp_ret; split; assumption|].
+  eapply wp_seq. apply wp_in. apply (wp_add_reserved b c0 _ s HH).
+  intros e s1 ((H1 & F1) & IN). destruct e; [apply wp_ret; split; assumption|].
   eapply wp_conseq. apply (wp_remove_reserved b c0 to_remove s1 H1).
-  - intros Hb RO1. destruct F1 as (_ & _ & F1). rewrite F1 in RO1.
-    destruct (CAP Hb RO1) as [E|(E & _)]; [|try rewrite INS in E; discriminate E].
-    rewrite E in Hrem. destruct Hrem as [<-|[]]. exact I.
+  - intros Hb RO1. destruct to_remove as [|p rest]; [exact I|]. intros MR.
+    destruct F1 as (_ & _ & F1). rewrite F1 in RO1.
+    apply (CAP Hb RO1 s1 IN p); [|exact MR]. apply (perms_in _ _ Hrem). now left.
   - intros e s2 (H2 & F2). split; [exact H2|exact (F0_trans _ _ _ F1 F2)].
 Qed.
 
